@@ -118,7 +118,7 @@ def judge_release(scn, out):
     if out.get("result", "").startswith(("panic", "crash")):
         return True
     claim = scn.get("claim", "")
-    if "closed connection" in claim or "handed back" in claim:
+    if "closed connection" in claim or "handed back" in claim or "before it was asked" in claim or "hand-back task" in claim:
         return any(out.get(k) != "200" for k in ("a", "c", "d"))
     return None
 
@@ -269,8 +269,9 @@ def obligations(prog, src, tier, seed, which, select=None):
         script = ctx.choose([(True, s_) for s_ in (("ok",), ("err",), ("pending", "ok"), ("pending", "pending", "err"), ("pending",), ("pending", "pending"))], "readiness script")
         cancel_after = ctx.choose([(True, k) for k in range(0, len(script) + 1)], "task dropped after k polls")
         ni = ctx.choose([(True, 0), (True, 1)], "idle before")
+        nw = ctx.choose([(True, 0), (True, 1)], "requests waiting for a connection of this origin")
         ctx.share, ctx.tok, ctx.pool_alive, ctx.script, ctx.cancel_after, ctx.ni = share, tok, pool_alive, script, cancel_after, ni
-        inner = build_inner(ctx, 0, ni, False, False, False, 8)
+        inner = build_inner(ctx, nw, ni, False, False, False, 8)
         shared = SharedV(inner, "pool")
         shared.alive = pool_alive
         ctx.shared = shared
@@ -283,6 +284,12 @@ def obligations(prog, src, tier, seed, which, select=None):
         ctx.n_spawned = len(spawned)
         ctx.pending_violation = False
         ctx.finished_ready = False
+
+        def visible():
+            return any(c.cid == 7 for c in idle_conns(shared.cell.v, 1)) or any(e[0] == "oneshot_delivered" for e in ctx.events)
+        # right after the release nothing may have happened to the connection yet: it has not been asked
+        # whether it is ready again (C02: "nor before it has reported itself ready again after its previous use")
+        ctx.early_handout = (not share) and visible()
         if spawned:
             wr = Cell(spawned[0], "whenready")
             polls = 0
@@ -295,7 +302,7 @@ def obligations(prog, src, tier, seed, which, select=None):
                     ctx.finished_ready = True
                 else:
                     # while the task is pending the connection must not be available to anybody else
-                    if any(c.cid == 7 for c in idle_conns(shared.cell.v, 1)):
+                    if visible():
                         ctx.pending_violation = True
             ctx.polls = polls
             last_pending = (polls == 0) or (not done)
@@ -320,6 +327,7 @@ def obligations(prog, src, tier, seed, which, select=None):
             return props
         props.append(("releasing a non-shareable connection starts exactly one hand-back task", ctx.n_spawned == 1))
         props.append(("connection visible in the pool while its hand-back task was still waiting for readiness", not ctx.pending_violation))
+        props.append(("a released connection was handed to a waiting request / put back into the pool before it was asked whether it is ready again", not ctx.early_handout))
         props.append(("pool mutex left locked", not ctx.shared.locked))
         # the task may only report completion once the connection itself reported ready (or failed):
         # otherwise a still-busy connection re-enters the pool when the finished task is dropped
@@ -328,7 +336,8 @@ def obligations(prog, src, tier, seed, which, select=None):
         open_now = ctx.conn.is_open
         should = z3.And(open_now, z3.BoolVal(ctx.tok != 0 and ctx.pool_alive))
         props.append(("a closed connection, or one the pool does not manage, was handed back to the pool", z3.Implies(z3.BoolVal(in_idle > 0), should)))
-        props.append(("an open pool-managed connection was not kept for reuse after release", z3.Implies(should, z3.BoolVal(in_idle == 1))))
+        delivered = any(e[0] == "oneshot_delivered" for e in ctx.events)
+        props.append(("an open pool-managed connection was neither kept for reuse nor handed to a waiting request after release", z3.Implies(should, z3.BoolVal(in_idle == 1 or delivered))))
         props.append(("connection stored twice", in_idle <= 1))
         return props
 
